@@ -130,12 +130,13 @@ def parseCall (enclose : Bytes → Bytes) (s : String) : Option Sink.Call :=
   match s.toList.head? with
   | some 'r' => rest.toNat?.map .ready
   | some 's' => (parseHex rest).map fun p => .send (enclose p)
+  | some 'e' => (parseHex rest).map fun _ => .sendFail
   | some 'f' => rest.toNat?.map .flush
   | some 'c' => rest.toNat?.map .close
   | _ => none
 
 def showRes : Sink.Res → String
-  | .ready => "R" | .pending => "P" | .panic => "X"
+  | .ready => "R" | .pending => "P" | .panic => "X" | .err => "E"
 
 def sinkOp (_f : FramerSpec) (calls : List Sink.Call) : String :=
   let (s, rs) := Sink.run Sink.step {} calls
@@ -156,7 +157,8 @@ def step (_ : Unit) (line : String) : Unit × String :=
     | ["rt", f, frames, sizes, _wmax, _wf] =>
       match parseFramer f, allSome ((listOf frames).map parseHex), allSome ((listOf sizes).map (·.toNat?)) with
       | some f, some frames, some sizes =>
-        let enc := encodeAll f.enclose frames
+        -- items starting 0xEF are refused by the harness' encoder: never transmitted
+        let enc := encodeAll f.enclose (frames.filter fun p => p.head? != some 0xEF)
         let frags := (fragBySizes enc sizes).map Frag.data
         s!"{hexOf enc} | {showOuts (runAll f.extract (enc.length + 2) RState.init frags)}"
       | _, _, _ => "bad-op"
